@@ -26,7 +26,7 @@ void * __real_realloc(void *, size_t);
 
 /* wrap_net.c */
 void fk_log(const char * fmt, ...);
-const char * fk_logtext(void);
+int __lsan_do_recoverable_leak_check(void);
 void fk_fill(uint8_t *, int, size_t, size_t);
 void fk_show(char *, const uint8_t *, size_t);
 void fk_register_buf(int, const void *, size_t);
@@ -184,8 +184,9 @@ again:
 	fk_fail_hit = 0;
 	if (o->kind == O_READ) u->cookie = network_read(u->fd, u->buf, u->buflen, (size_t)o->d, cb_rw, u);
 	else if (o->kind == O_WRITE) u->cookie = network_write(u->fd, u->buf, u->buflen, (size_t)o->d, cb_rw, u);
-	else { if (u->fd < 64) fk_accept_id[u->fd] = u->id; u->cookie = network_accept(u->fd, cb_acc, u); }
+	else u->cookie = network_accept(u->fd, cb_acc, u);
 	u->pending = (u->cookie != NULL);
+	if (o->kind == O_ACCEPT && u->pending && u->fd < 64) fk_accept_id[u->fd] = u->id;
 	fk_log("%s%d=%s", o->kind == O_READ ? "r" : o->kind == O_WRITE ? "w" : "a", u->id, u->pending ? "ok" : "null");
 	if (hit(i) && !u->pending && af_single && tries++ == 0) goto again;
 }
@@ -380,9 +381,9 @@ again:
 		run_events();
 	}
 	fk_log("fin=%s", conn_done ? "done" : "running");
-	fk_log("end");
 	if (!conn_done) { network_connect_cancel(C); conn_done = 1; }
 	fk_log("open=%d", fk_open_sockets());
+	fk_log("end");
 	/* impl-only: nothing may be left behind (a stale timer or registration would fire here) */
 	fk_fail_at = 0;
 	{
@@ -423,7 +424,7 @@ int main(void)
 		if (pid == 0) {
 			size_t k;
 			run_case(lines[i]);
-			fputs(fk_logtext(), stdout);
+			if (__lsan_do_recoverable_leak_check()) fputs(" !LEAK", stdout);
 			for (k = 0; k < nl; k++) __real_free(lines[k]);
 			__real_free(lines);
 			exit(0);
@@ -431,7 +432,6 @@ int main(void)
 		if (pid < 0) { printf("fork-failed\n"); continue; }
 		while (waitpid(pid, &st, 0) < 0) ;
 		if (WIFSIGNALED(st)) printf(" !SIG%d", WTERMSIG(st));
-		else if (WIFEXITED(st) && WEXITSTATUS(st) == 23) printf(" !LEAK");
 		else if (WIFEXITED(st) && WEXITSTATUS(st) != 0) printf(" !EXIT%d", WEXITSTATUS(st));
 		printf("\n");
 	}
